@@ -1,8 +1,8 @@
 SPECIFICATION Spec
 CONSTANTS
   MaxId = 4
-  MaxH = 5
-  MaxConn = 4
+  MaxH = 3
+  MaxConn = 3
   MaxRecv = 2
   MaxHist = 99
 VIEW TourView
